@@ -1,0 +1,16 @@
+//! Verification hook (compiled only with `--cfg daachorse_verif`): counts the iterations of the
+//! transition loops so that a harness can compare them with the linear-time bound.
+
+use core::sync::atomic::{AtomicU64, Ordering};
+
+static TICKS: AtomicU64 = AtomicU64::new(0);
+
+#[inline(always)]
+pub(crate) fn tick() {
+    TICKS.fetch_add(1, Ordering::Relaxed);
+}
+
+/// Returns the number of transition-loop iterations executed so far.
+pub fn verif_ticks() -> u64 {
+    TICKS.load(Ordering::Relaxed)
+}
